@@ -22,7 +22,17 @@ RULE = (
     "odd/non-ASCII names, CRLF text). Rules (<= 12 per history): stage+transfer (shallow or not), "
     "build without transfer (stage_only), rewrite of a pool file with another pool file's content under a "
     "harness clock step (equal contents at several paths; hard-linked files are replaced, not written through), "
-    "build(upload=True)+transfer, direct add under the id an honest caller computes (optionally hard-linked, optionally in overwrite mode "
+    "build(upload=True)+transfer, upload_stale = build(upload=True)+transfer of one pool item (directory or single "
+    "file) into L or G while what the library knows about one of its files is OUTDATED when that file is uploaded - "
+    "'writer': a progress Callback passed to build() rewrites the victim (append a line / flip a bit / content of "
+    "another pool file) on every tick or on one drawn tick, i.e. after files of the current directory level were "
+    "hashed or served from the state and before the level is uploaded (directories); 'state-row': a status-style "
+    "build() records the item in the shared State, the victim is rewritten in place with other bytes of the same "
+    "size and its mtime restored (same inode/mtime/size: the row still matches), then the upload runs; 'fs-md5': "
+    "the user edits a single file and the upload reads it through a local filesystem whose info() still advertises "
+    "the md5 recorded before the edit - the upload path must name every object by the digest of the stream it "
+    "actually copied (judged by the ordinary audit; the harness then steps the victim's mtime so that no State row "
+    "written so far matches it any more), direct add under the id an honest caller computes (optionally hard-linked, optionally in overwrite mode "
     "check_exists=False aimed at objects already present), "
     "store->store transfer of a drawn id subset (shallow/expanded, hardlink; optionally raced: a second handle "
     "delivers part of the to-be-sent objects between the status query and the upload), index build->md5->save of a "
@@ -76,6 +86,17 @@ ASSUMPTIONS = [
     "add_direct's overwrite arm), so such caches are not generated",
     "tampered listings stay well-formed (list of {md5, relpath} entries) - a malformed or unparsable '.dir' "
     "object in the source is outside this check",
+    "outdated knowledge (a matching but stale hash-state row, an fs-reported md5 that lags behind the data, a file "
+    "written to after it was hashed) is generated ONLY in front of build(upload=True), whose contract is to hash the "
+    "stream while copying; non-upload builds trust the state token / the fs-reported md5 by design, so every "
+    "upload_stale ends with a harness clock step on the victim (no row saved before or during the rule matches it "
+    "afterwards) and nothing is asserted about what the returned Tree/HashFile lists - only about the objects that "
+    "reached the audited stores",
+    "the writer Callback acts only inside relative_update ticks of build()'s own progress callback (never during an "
+    "upload); an item holding >= 2 files over the 1 MiB large-file threshold is hashed on a thread pool and is not "
+    "given a writer; a victim that is hard-linked into a store is replaced (new inode), never written through, and "
+    "is not eligible for the in-place 'state-row' arm (nor is an empty file); an arm that does not apply falls over "
+    "to the next (no State / no eligible victim -> writer for directories, fs-md5 for single files)",
     "files named like dvc-objects temp files (.<token>.tmp) are counted, not judged",
     "hashlib, the reference text sniffing rule and the hand-written listing serialiser are the trusted base",
 ]
